@@ -3104,7 +3104,20 @@ func (a *AccumulatedServiceOutput) Encode(e *Encoder) error {
 		return err
 	}
 
-	for accumulatedServiceHash := range *a {
+	// Map iteration order is random: sort the keys (service id, then hash) so that the
+	// encoding is deterministic
+	keys := make([]AccumulatedServiceHash, 0, len(*a))
+	for k := range *a {
+		keys = append(keys, k)
+	}
+	sort.Slice(keys, func(i, j int) bool {
+		if keys[i].ServiceID != keys[j].ServiceID {
+			return keys[i].ServiceID < keys[j].ServiceID
+		}
+		return bytes.Compare(keys[i].Hash[:], keys[j].Hash[:]) < 0
+	})
+
+	for _, accumulatedServiceHash := range keys {
 		// AccumulatedServiceHash
 		if err := accumulatedServiceHash.Encode(e); err != nil {
 			return err
